@@ -68,3 +68,28 @@ pub fn run(out: &mut Out, rng: &mut Rng, thorough: bool) {
         }
     }
 }
+
+/// op `cellsin`: the `cells` computation on inputs read from a file (one input per line, protocol tokens
+/// `dim periodic anchor(3) width(3) n gens(3n) M mask`); used for replays and experiments.
+pub fn run_file(out: &mut Out, path: &str) {
+    let text = std::fs::read_to_string(path).expect("input file");
+    for line in text.lines() {
+        let t: Vec<&str> = line.split_whitespace().collect();
+        if t.len() < 9 {
+            continue;
+        }
+        let f = |s: &str| f64::from_bits(u64::from_str_radix(s, 16).expect("hex float"));
+        let v = |i: usize| glam::DVec3::new(f(t[i]), f(t[i + 1]), f(t[i + 2]));
+        let dim: usize = t[0].parse().unwrap();
+        let periodic = t[1] == "1";
+        let n: usize = t[8].parse().unwrap();
+        let gens: Vec<glam::DVec3> = (0..n).map(|k| v(9 + 3 * k)).collect();
+        let mut mask = None;
+        let mi = 9 + 3 * n;
+        if t.len() > mi + 1 && t[mi] == "M" && t[mi + 1] != "-" {
+            mask = Some(t[mi + 1].chars().map(|c| c == '1').collect::<Vec<bool>>());
+        }
+        let inp = Input { family: "file".to_string(), dim, periodic, anchor: v(2), width: v(5), gens };
+        emit(out, &inp, &mask, "brute verts");
+    }
+}
